@@ -44,6 +44,10 @@ import (
 //	kind 1  "wrong length": service Svc holds blob Pre and ALSO requests (H(blob), |blob|+LenDelta)
 //	kind 2  "shared": blob Pre of service From is stored in service Svc as well, with its lookup entry
 //	kind 3  "bare request": service Svc requests (Hash, Len) for which nobody holds a blob
+//	kind 4  "empty storage key": service Svc stores a value under the zero-length key (legal: host
+//	        call write with k_z = 0; the shared generator leaves it out because of the Storage codec)
+//	kind 5  "special id": service Svc is copied under an id whose little-endian bytes collide with
+//	        chapter / service-info key prefixes (0, 1..16, 255, 0xFF.., 2^32-1 ...)
 type c17Extra struct {
 	Kind     int      `json:"kind"`
 	Svc      int      `json:"svc"`
@@ -73,10 +77,10 @@ type c17Input struct {
 
 func c17Gen(rt *rapid.T) c17Input {
 	in := c17Input{State: typegen.GenStateNode(rt)}
-	ne := rapid.SampledFrom([]int{0, 0, 1, 2, 3, 4}).Draw(rt, "nextras")
+	ne := rapid.SampledFrom([]int{0, 0, 1, 2, 3, 4, 6}).Draw(rt, "nextras")
 	for i := 0; i < ne; i++ {
 		e := c17Extra{
-			Kind:     rapid.IntRange(0, 3).Draw(rt, "ekind"),
+			Kind:     rapid.IntRange(0, 5).Draw(rt, "ekind"),
 			Svc:      rapid.IntRange(0, 7).Draw(rt, "esvc"),
 			From:     rapid.IntRange(0, 7).Draw(rt, "efrom"),
 			Pre:      rapid.IntRange(0, 3).Draw(rt, "epre"),
@@ -171,7 +175,10 @@ func c17SortedPreimages(a types.ServiceAccount) []types.OpaqueHash {
 
 // c17ApplyExtras mutates s (fresh value built from the recipe) and keeps a_i / a_o in
 // step (GP 9.8: two items and 81+z octets per lookup entry).
-func c17ApplyExtras(s *types.State, extras []c17Extra) (applied [4]int) {
+var c17SpecialIDs = []types.ServiceID{0, 1, 2, 15, 16, 17, 255, 256, 0xFF00, 0xFFFF, 65536, 0x00FF00FF, 0xFF0000FF,
+	0xFFFFFF00, 0xFFFFFFFE, 0xFFFFFFFF}
+
+func c17ApplyExtras(s *types.State, extras []c17Extra) (applied [6]int) {
 	for _, e := range extras {
 		ids := c17SortedIDs(s.Delta)
 		if len(ids) == 0 {
@@ -255,6 +262,41 @@ func c17ApplyExtras(s *types.State, extras []c17Extra) (applied [4]int) {
 			if addLookup(types.LookupMetaMapkey{Hash: h, Length: types.U32(l)}) {
 				applied[3]++
 			}
+		case 4: // empty storage key
+			if acc.StorageDict == nil {
+				acc.StorageDict = types.Storage{}
+			}
+			if _, dup := acc.StorageDict[""]; dup {
+				continue
+			}
+			n := int(e.HashSeed % 70)
+			v := make(types.ByteSequence, n)
+			for i := range v {
+				v[i] = byte(e.HashSeed>>(8*uint(i%8))) + byte(i)
+			}
+			acc.StorageDict[""] = v
+			acc.ServiceInfo.Items++
+			acc.ServiceInfo.Bytes += 34 + types.U64(n)
+			applied[4]++
+		case 5: // special id
+			nid := c17SpecialIDs[e.HashSeed%uint64(len(c17SpecialIDs))]
+			if _, exists := s.Delta[nid]; exists {
+				continue
+			}
+			cp := types.ServiceAccount{ServiceInfo: acc.ServiceInfo, PreimageLookup: types.PreimagesMapEntry{},
+				LookupDict: types.LookupMetaMapEntry{}, StorageDict: types.Storage{}}
+			for k, v := range acc.PreimageLookup {
+				cp.PreimageLookup[k] = append(types.ByteSequence{}, v...)
+			}
+			for k, v := range acc.LookupDict {
+				cp.LookupDict[k] = append(types.TimeSlotSet{}, v...)
+			}
+			for k, v := range acc.StorageDict {
+				cp.StorageDict[k] = append(types.ByteSequence{}, v...)
+			}
+			s.Delta[nid] = cp
+			applied[5]++
+			continue
 		}
 		s.Delta[sid] = acc
 	}
@@ -552,6 +594,12 @@ func c17Check(c *kit.Case, in c17Input) {
 	if applied[3] > 0 {
 		c.Class("extra_bare_request")
 	}
+	if applied[4] > 0 {
+		c.Class("extra_empty_storage_key")
+	}
+	if applied[5] > 0 {
+		c.Class("extra_special_service_id")
+	}
 	c.Class(fmt.Sprintf("order_%d", in.Order))
 	_ = nPre
 }
@@ -616,5 +664,5 @@ func TestVerif_C17(t *testing.T) {
 	defer s.Finish()
 	runtime.MemProfileRate = 0
 	typegen.SetMode("tiny")
-	kit.Run(s, "export_import_roundtrip", kit.N{Quick: 4000, Thorough: 200000}, c17Gen, c17Check)
+	kit.Run(s, "export_import_roundtrip", kit.N{Quick: 6000, Thorough: 150000}, c17Gen, c17Check)
 }
